@@ -560,7 +560,8 @@ class Prop:
                "set_add", "set_discard", "event", "prop_set", "deleg_set", "del_any", "read",
                "validator_raises", "handler_raises", "readonly", "readonly_again", "trait_set",
                "setq", "add_trait_set", "clone_drop", "pickle_drop", "default_read", "tuple_set",
-               "tuple_convert", "tuple_convert", "union_set", "either_set", "instance_set"]
+               "tuple_convert", "tuple_convert", "union_set", "either_set", "instance_set",
+               "event_quiet", "quiet_mix"]
 
     def gen_ref(self, seed):
         r = stream(seed, "ref")
@@ -747,6 +748,20 @@ class Prop:
                     _, e = sut(o.trait_setq, n=s)
                     if e is None:
                         hold((oi, "n"), [j])
+                elif k == "event_quiet":
+                    # an event fired while notifications are off stores nothing
+                    if op["n"] % 2:
+                        _, e = sut(o.trait_setq, ev=s)
+                    else:
+                        _, e = sut(lambda: o.trait_set(trait_change_notify=False, ev=s))
+                elif k == "quiet_mix":
+                    # every kind of accessor under 'no notifications'
+                    sut(lambda: o.trait_set(trait_change_notify=False, ev=s, p=s, dv=s, cv=s, a=s))
+                    for slot, key in (("_pv", (oi, "_pv")), ("cv", (oi, "cv")), ("a", (oi, "a"))):
+                        if o.__dict__.get(slot) is s:
+                            hold(key, [j])
+                    if objs[1 - oi].__dict__.get("a2") is s:
+                        hold((1 - oi, "a2"), [j])
                 elif k == "add_trait_set":
                     nm = "x%d" % op["n"]
                     sut(o.add_trait, nm, T.Any())
